@@ -113,6 +113,10 @@ impl FsDir {
                         }
                     }
                     Err(ref e) if e.kind() == ErrorKind::NotFound => {}
+
+                    // `<path>.gz` can exceed `NAME_MAX` where `<path>` doesn't; then there's no
+                    // such sibling either.
+                    Err(ref e) if e.raw_os_error() == Some(libc::ENAMETOOLONG) => {}
                     Err(e) => return Err(e),
                 };
                 buf.truncate(path_len);
